@@ -79,10 +79,10 @@ M = [
   "            if (pere.poids > cut) or (pere.id == target):",
   "            if (pere.poids >= cut) or (pere.id == target):",
   "pairs at exactly the cut-off distance are dropped"),
- ("m15_pq_stale", "C06", "tracklib/core/utils.py",
-  "        v, k = heappop(heap)\n        while k not in self or self[k] != v:\n            v, k = heappop(heap)\n        del self[k]",
-  "        v, k = heappop(heap)\n        while k not in self:\n            v, k = heappop(heap)\n        del self[k]",
-  "priority_dict.pop_smallest returns stale heap entries"),
+ ("m15_stale_labels", "C06", "tracklib/core/network.py",
+  "        for elem in self.NODES.items():\n            elem[1].poids = -1\n",
+  "        for elem in self.NODES.items():\n            if elem[1].poids > 3: elem[1].poids = -1\n",
+  "labels <= 3 of the previous search survive the reset: answers depend on the query history"),
  ("m16_reverse_lt", "C06", "tracklib/core/network.py",
   "        if edge.orientation <= 0:\n            self.NEXT_EDGES[target.id].append(edge.id)",
   "        if edge.orientation < 0:\n            self.NEXT_EDGES[target.id].append(edge.id)",
